@@ -95,20 +95,20 @@ type acc struct{ n, m int }
 var a acc
 pf := &a.n
 YIELD(a.n)
-a, k := acc{n: 5, m: 1}, 2
-*pf += k
+a, kk := acc{n: 5, m: 1}, 2
+*pf += kk
 YIELD(a.n*10 + *pf)
 var arr [3]int
 sl := arr[:]
 YIELD(arr[0])
-arr, q := [3]int{1, 2, 3}, 9
-sl[0] += q
+arr, qq := [3]int{1, 2, 3}, 9
+sl[0] += qq
 YIELD(arr[0]*100 + sl[0])
 xs := []int{1, 2}
 p0 := &xs[0]
 YIELD(xs[0])
-xs, r := append(xs[:1:1], 7), 3
-*p0 += r
+xs, rr := append(xs[:1:1], 7), 3
+*p0 += rr
 YIELD(xs[0]*10 + len(xs))
 RETNIL`, "partial-redeclaration"),
 		G("scope-partial-redeclaration-after-yield", `
